@@ -287,6 +287,12 @@ impl Drop for MissingFieldLocationGuard {
     }
 }
 
+/// Verification hook: current value of the thread-local fallback location (see `verif_hooks`).
+#[cfg(serde_saphyr_verif)]
+pub(crate) fn verif_missing_field_fallback() -> Option<(u64, u64)> {
+    MISSING_FIELD_FALLBACK.with(|c| c.get().map(|l| (l.line(), l.column())))
+}
+
 /// The reason why a string value was transformed during parsing and cannot be borrowed.
 ///
 /// When deserializing to `&str`, the value must exist verbatim in the input. However,
